@@ -467,6 +467,28 @@ theorem fastq_write_source_eq_model (w id : Bytes) (desc : Option Bytes) (seq qu
       Res.ok (.ok (), w ++ writeFastqRec { id := id, desc := desc, seq := seq, qual := qual }) :=
   GenSrcFastq.write_eq_model w id desc seq qual
 
+/-- **`write_record`, source text** (both formats): `write` on the translated accessors `id()`, `desc()`, `seq()` [, `qual()`] -/
+theorem fasta_write_record_source_eq_model (w : Bytes) (r : FaRec) (wrap : Option Nat) (hw : ∀ n, wrap = some n → 1 ≤ n) :
+    Gen.SrcFasta.writeRecord writeAllOp w wrap r.id r.desc r.seq = Res.ok (.ok (), w ++ writeFastaRec wrap r) :=
+  GenSrcFasta.writeRecord_eq_model w r wrap hw
+
+theorem fastq_write_record_source_eq_model (w : Bytes) (r : FqRec) (hs : trimEndU r.seq = r.seq)
+    (hq : trimEndU r.qual = r.qual) :
+    Gen.SrcFastq.writeRecord writeAllOp trimEndU w r.id r.desc r.seq r.qual = Res.ok (.ok (), w ++ writeFastqRec r) :=
+  GenSrcFastq.writeRecord_eq_model trimEndU w r hs hq
+
+/-- **constructors, source text**: `Reader::from_bufread(b).records()` is the initial state the `Records` theorems start from
+(empty look-ahead line / line buffer, error flag cleared); `Writer::from_bufwriter` has no line wrap until `set_linewrap` -/
+theorem fastx_constructors_source {ρ ω : Type} (b : ρ) (w : ω) (lw lw' : Option Nat) :
+    (Gen.SrcFasta.readerFromBufread b >>= fun r => Gen.SrcFasta.readerRecords r.1 r.2) = Res.ok ((b, []), false) ∧
+    (Gen.SrcFastq.readerFromBufread b >>= fun r => Gen.SrcFastq.readerRecords r.1 r.2) = Res.ok (b, []) ∧
+    Gen.SrcFasta.writerFromBufwriter w = Res.ok (w, none) ∧
+    Gen.SrcFasta.writerSetLinewrap lw lw' = Res.ok ((), lw') ∧
+    Gen.SrcFastq.writerFromBufwriter w = Res.ok w := by
+  have h1 := GenSrcFasta.ctors_eq b ([] : Bytes) w lw lw'
+  have h2 := GenSrcFastq.ctors_eq b ([] : Bytes) w
+  refine ⟨by simp [h1.1, h1.2.1], by simp [h2.1, h2.2.1], h1.2.2.1, h1.2.2.2, h2.2.2⟩
+
 /-- a whole file through the translated FASTA writer -/
 def srcWriteFasta (wrap : Option Nat) (w : Bytes) (r : FaRec) : Res Bytes := do
   let (_, w') ← Gen.SrcFasta.write writeAllOp w wrap r.id r.desc r.seq
